@@ -445,6 +445,7 @@ func (x *Exec) loopSpecResolvable(fr *Frame, lp *loop, ls *loopSpec, st *State) 
 			if u, isU := r.(unsupported); isU {
 				fmt.Fprintf(os.Stderr, "STALE-LOOP-CLAUSE contract %s loop %d: %s; clauses ignored\n", x.target.Name, lp.ordinal, u.msg)
 				ls.stale = true
+				x.staleClauses = append(x.staleClauses, fmt.Sprintf("loop %d: %s", lp.ordinal, u.msg))
 				ok = false
 				return
 			}
